@@ -26,6 +26,21 @@ def pad_rules(chk, repo):
     for ndim, off in ((2, 0), (3, 1)):
         facts = {nf.attr(arr, 'ndim').single_atom(): C(ndim)}
         _, paths, _ = analyse(repo, f, config={'shape': shape}, facts=facts)
+        # growing or shrinking is decided axis by axis: among the conditions that select the slices there is one about the row
+        # lengths and one about the column lengths (a column branch chosen by the row difference is wrong whenever one axis
+        # grows while the other shrinks or stays)
+        ax_atoms = [{nf.index(ashape, C(k + off)).single_atom(), shape.items[k].single_atom()} for k in (0, 1)]
+        seen_ax = [False, False]
+        for p in returns(paths):
+            for c, _pol, _n in p.conds:
+                va_ = nf.value_atoms(c)
+                for k in (0, 1):
+                    if va_ & ax_atoms[k] == ax_atoms[k]:
+                        seen_ax[k] = True
+        if any(seen_ax) and len(returns(paths)) > 1:
+            chk.ob('C20-a', 'D-guard', f.key, f'each axis is padded or cropped according to its own lengths [ndim={ndim}]', all(seen_ax),
+                   '' if all(seen_ax) else f'no branch compares the {"row" if not seen_ax[0] else "column"} length of the array with the requested '
+                   'one: that axis follows the decision taken for the other axis', f.loc())
         for p in returns(paths):
             if nf.strip_apps(p.ret, ('copy', 'm:copy', 'asarray', 'array')) == arr:
                 # the input handed back (copied) as it is: right only when it already has the requested shape on both axes
